@@ -96,10 +96,28 @@ class LP(dict):
         return " + ".join(out) + (" + ..." if len(self) > limit else "")
 
 
+def pow2(x):
+    """2 ** x for x = c, or x = s + c with one symbol s of coefficient 1: 2**c * '2^s' (a symbol of its own)"""
+    c = Fraction(0)
+    syms = []
+    for k, v in x.items():
+        if k == ():
+            c = v
+        elif len(k) == 1 and k[0][1] == 1 and v == 1:
+            syms.append(k[0][0])
+        else:
+            return None
+    if c.denominator != 1 or len(syms) > 1:
+        return None
+    base = LP.const(Fraction(2) ** int(c))
+    return base * LP.sym("2^" + syms[0]) if syms else base
+
+
 class Formula:
     """Evaluate one function.  `objects`: parameter name -> {field: LP} initial contents; `scalars`: parameter name -> LP."""
 
-    def __init__(self, m, func, objects, scalars, opaque_fields=("min", "max", "cookie")):
+    def __init__(self, m, func, objects, scalars, opaque_fields=("min", "max", "cookie"), lenient=False):
+        self.lenient = lenient
         self.m, self.f = m, func
         self.store = {}
         for o, fields in objects.items():
@@ -176,6 +194,12 @@ class Formula:
                 raise AnalysisBroken("LAU: %s divides by '%s' = %s, which is not a single term over the chosen symbols"
                                      % (self.f.name, render(kids(n)[1]), b.show()))
             return a * ib
+        if k == "BinaryOperator" and n.get("opcode") == "<<":
+            a, b = self.ev(kids(n)[0]), self.ev(kids(n)[1])
+            if a is None or b is None:
+                return None
+            p2 = pow2(b)
+            return None if p2 is None else a * p2
         if k == "UnaryOperator" and n.get("opcode") == "-":
             a = self.ev(kids(n)[0])
             return None if a is None else a.scale(-1)
@@ -207,6 +231,8 @@ class Formula:
                 (l["kind"] == "DeclRefExpr" and l["ref"]["name"] in self.local_structs):
             dst, src = self.root(l), self.root(rhs)
             if dst is None or src is None or kind != "=":
+                if self.lenient:
+                    return
                 raise AnalysisBroken("LAU: %s: struct store '%s' not understood" % (self.f.name, render(lhs)))
             self.copy_struct(dst, src)
             return
@@ -221,12 +247,17 @@ class Formula:
             return
         key = self.lkey(l)
         if key is None:
+            if self.lenient:
+                self.ev(rhs)
+                return
             raise AnalysisBroken("LAU: %s: store to '%s' not understood" % (self.f.name, render(lhs)))
         v = self.ev(rhs)
         if key[1] in self.opaque:
             return
         if kind == "=":
             if v is None:
+                if self.lenient and key not in self.store:
+                    return
                 raise AnalysisBroken("LAU: %s stores a value outside the algebra to %s.%s (%s)"
                                      % (self.f.name, key[0], key[1], render(rhs)))
             self.store[key] = v
@@ -249,6 +280,11 @@ class Formula:
             if iv is None:
                 raise AnalysisBroken("LAU: division by a sum")
             return old * iv
+        if kind == "<<=":
+            p2 = pow2(v)
+            if p2 is None:
+                raise AnalysisBroken("LAU: shift by a non-constant sum")
+            return old * p2
         raise AnalysisBroken("LAU: operator %s" % kind)
 
     def decide(self, cond):
@@ -310,6 +346,8 @@ class Formula:
                     if t.rstrip().endswith("*"):
                         r = self.root(init) if init is not None else None
                         if r is None:
+                            if self.lenient:
+                                continue
                             raise AnalysisBroken("LAU: %s: pointer local '%s' does not name an object" % (self.f.name, vd["name"]))
                         self.alias[vd["name"]] = r
                     elif t.startswith("struct ") or t.startswith("const struct "):
@@ -318,6 +356,8 @@ class Formula:
                         if i0 is not None and i0["kind"] != "InitListExpr":
                             src = self.root(i0)
                             if src is None:
+                                if self.lenient:
+                                    continue
                                 raise AnalysisBroken("LAU: %s: struct local '%s' initialised from '%s'" % (self.f.name, vd["name"], render(init)))
                             self.copy_struct(vd["name"], src)
                     else:
@@ -354,6 +394,19 @@ class Formula:
                             raise AnalysisBroken("LAU: %s: conditional update of '%s'" % (self.f.name, render(kids(y)[0])))
                 continue
             if k in ("DoStmt", "WhileStmt", "ForStmt"):
+                if self.lenient:
+                    # a loop may not touch a tracked field; locals it assigns become unknown
+                    for y in walk(s):
+                        if (y["kind"] == "BinaryOperator" and y.get("opcode") == "=") or y["kind"] == "CompoundAssignOperator" or \
+                                (y["kind"] == "UnaryOperator" and y.get("opcode") in ("++", "--")):
+                            t0 = strip(kids(y)[0], casts=True)
+                            if t0["kind"] == "DeclRefExpr":
+                                self.env[t0["ref"]["name"]] = None
+                                continue
+                            key = self.lkey(t0)
+                            if key is not None and key in self.store and key[1] not in self.opaque:
+                                raise AnalysisBroken("LAU: %s: tracked field %s.%s is updated in a loop" % (self.f.name, key[0], key[1]))
+                    continue
                 if any((y["kind"] == "BinaryOperator" and y.get("opcode") == "=") or y["kind"] in ("CompoundAssignOperator", "CallExpr")
                        or (y["kind"] == "UnaryOperator" and y.get("opcode") in ("++", "--")) for y in walk(s)):
                     raise AnalysisBroken("LAU: %s: loop with effects" % self.f.name)
